@@ -118,7 +118,10 @@ def run_c04(rep, tier, seed):
                 cuts.append(min(tot, max(0, rng.randint(0, 8 ** k) * 8 ** (levelmax + 1 - k) + rng.choice([-1, 0, 0, 1]))))
             else:
                 cuts.append(cuts[-1] if cuts else 0)
-        lists.append({"box": box, "levelmax": levelmax, "lmax": lmax, "bk": [0] + sorted(cuts) + [tot]})
+        last = tot
+        if rng.random() < 0.25:
+            last = tot - rng.choice([1, 3, 8 ** rng.randint(0, levelmax) // 2 + 1])      # the printed last key rounded down
+        lists.append({"box": box, "levelmax": levelmax, "lmax": lmax, "bk": [0] + sorted(min(c_, last) for c_ in cuts) + [last]})
     wd = os.path.join(common.WORK, "hilbert")
     os.makedirs(wd, exist_ok=True)
     with open(os.path.join(wd, "cases.json"), "w") as f:
